@@ -43,15 +43,16 @@ def summary(f):
     from .features import effect_canon
     lines = effect_canon(f, cells=True)
     # whole-variable assignments are not effects: a variable assigned once is replaced by its value wherever it is used
+    # (`CALL~` = the kept result of a call that receives no `&mut`: a value, like a store of an expression)
     stores = {}
     for l in lines:
-        m = re.match(r"^STORE (local:\w+) = (.*)$", l)
+        m = re.match(r"^(?:STORE|CALL~) (local:\w+) = (.*)$", l)
         if m:
             stores.setdefault(m.group(1), []).append(m.group(2))
     single = {k: v[0] for k, v in stores.items() if len(v) == 1 and k != "local:ret"}
     out = []
     for l in lines:
-        m = re.match(r"^STORE (local:\w+) = ", l)
+        m = re.match(r"^(?:STORE|CALL~) (local:\w+) = ", l)
         if m and m.group(1) in single:
             continue
         out.append(l)
@@ -167,6 +168,27 @@ def _subst_local(e, l, val):
                  (tuple(_subst_local(z, l, val) if isinstance(z, tuple) else z for z in y) if isinstance(y, tuple) else y) for y in e)
 
 
+def _norm_result(v):
+    """canonical text of a result; a comparison (possibly under `!`) is written in one way"""
+    from ..sym import strip, canon
+    v = strip(v)
+    neg = False
+    while v[0] == "un" and v[1] == "Not":
+        v = strip(v[2])
+        neg = not neg
+    if v[0] == "bin" and v[1] in ("Lt", "Le", "Gt", "Ge", "Eq", "Ne"):
+        op, a, b = v[1], canon(strip(v[2])), canon(strip(v[3]))
+        if neg:
+            op = {"Lt": "Ge", "Le": "Gt", "Gt": "Le", "Ge": "Lt", "Eq": "Ne", "Ne": "Eq"}[op]
+        if op in ("Gt", "Ge"):
+            op, a, b = {"Gt": "Lt", "Ge": "Le"}[op], b, a
+        elif op in ("Eq", "Ne") and b < a:
+            a, b = b, a
+        return "%s(%s,%s)" % (op, a, b)
+    t = canon(v)
+    return "Not(%s)" % t if neg else t
+
+
 def _belief_edge(f, sb):
     """the branch in block sb is a debug_assert!/invariant! test (its other arm panics under one of those macros)"""
     from ..mir import is_panic_call
@@ -280,7 +302,7 @@ def path_summary(prog, f):
                 elif op in ("Eq", "Ne") and y < x:
                     x, y = y, x
                 conds.append("%s(%s,%s)" % (op, x, y))
-        rv = canon(v)
+        rv = _norm_result(v)
         rv = {"Not(0)": "1", "Not(1)": "0"}.get(rv, rv)
         if rv == "0" and f.locals[0]["ty"] == "bool":
             # a predicate is determined by where it is not `false`: the constant-false sites are the complement of the others, and how
